@@ -44,6 +44,7 @@ func main() {
 		shard := fs.String("shard", "0/1", "")
 		out := fs.String("out", "", "")
 		only := fs.String("only", "", "")
+		sub := fs.Int("subsample", 1, "")
 		fs.Parse(os.Args[3:])
 		f, ok := core.Props[prop]
 		if !ok {
@@ -63,6 +64,7 @@ func main() {
 			idx, _ := strconv.Atoi((*only)[i+1:])
 			c.Only = &core.Coord{Family: (*only)[:i], Index: idx}
 		}
+		c.Subsample = *sub
 		if *out != "" {
 			c.OpenWAL(*out + ".wal")
 		}
